@@ -45,6 +45,10 @@ pub struct MetricSpec {
     pub vars: Vec<String>,
     /// children of a vector: (label values, value); for plain metrics one entry with no values
     pub children: Vec<(Vec<String>, u32)>,
+    /// C16 only: a special float (bit pattern, see compat::fbits) that a float gauge / pulling gauge /
+    /// float counter holds instead of children[0].1
+    #[serde(default)]
+    pub special: Option<String>,
 }
 #[derive(Serialize, Deserialize, Clone, Debug)]
 pub struct GatherPlan {
@@ -87,7 +91,7 @@ pub fn gen_plan(seed: u64, mixed_kinds: bool) -> GatherPlan {
             if same.iter().any(|m| m.consts == consts) {
                 continue;
             }
-            MetricSpec { kind, name, help: first.help.clone(), consts, vars: first.vars.clone(), children: vec![] }
+            MetricSpec { kind, name, help: first.help.clone(), consts, vars: first.vars.clone(), children: vec![], special: None }
         } else {
             let kind = if r.chance(45) { r.pick(&vec_kinds).clone() } else { r.pick(&plain_kinds).clone() };
             let consts = if kind == MK::Pulling {
@@ -100,7 +104,7 @@ pub fn gen_plan(seed: u64, mixed_kinds: bool) -> GatherPlan {
                 }
             };
             let vars = if kind.is_vec() { if r.chance(50) { vec!["l".to_string()] } else { vec!["l".to_string(), "e".to_string()] } } else { vec![] };
-            MetricSpec { kind, name, help: format!("help {}", r.below(3)), consts, vars, children: vec![] }
+            MetricSpec { kind, name, help: format!("help {}", r.below(3)), consts, vars, children: vec![], special: None }
         };
         let mut spec = spec;
         if spec.kind.is_vec() {
@@ -204,10 +208,11 @@ fn build_metric(m: &MetricSpec) -> std::result::Result<Built, String> {
     let names: Vec<&str> = m.vars.iter().map(|s| s.as_str()).collect();
     let e = |e: Error| e.to_string();
     let hopts = || HistogramOpts::from(opts.clone()).buckets(BOUNDS.to_vec());
+    let special: Option<f64> = m.special.as_ref().and_then(|s| compat::fbits::dec(s).ok());
     Ok(match m.kind {
         MK::Counter => {
             let c = Counter::with_opts(opts).map_err(e)?;
-            c.inc_by(m.children[0].1 as f64);
+            c.inc_by(special.filter(|x| !(*x < 0.0)).unwrap_or(m.children[0].1 as f64));
             Built::C(c)
         }
         MK::IntCounter => {
@@ -217,7 +222,7 @@ fn build_metric(m: &MetricSpec) -> std::result::Result<Built, String> {
         }
         MK::Gauge => {
             let c = Gauge::with_opts(opts).map_err(e)?;
-            c.set(m.children[0].1 as f64);
+            c.set(special.unwrap_or(m.children[0].1 as f64));
             Built::G(c)
         }
         MK::IntGauge => {
@@ -231,7 +236,7 @@ fn build_metric(m: &MetricSpec) -> std::result::Result<Built, String> {
             Built::H(c)
         }
         MK::Pulling => {
-            let v = m.children[0].1 as f64;
+            let v = special.unwrap_or(m.children[0].1 as f64);
             Built::P(PullingGauge::new(m.name.clone(), m.help.clone(), Box::new(move || {
                 crate::engine::yield_here();
                 v
